@@ -96,12 +96,12 @@ func (g *generator) run(pass *codegen.Pass) error {
 
 			structType, ok := ts.Type.(*ast.StructType)
 			if !ok {
-				return
+				continue
 			}
 
 			metadata := analyzeMarker(pass, markersInspect, typeMarkers, structType, "", ts.Name.Name)
 			if len(metadata) == 0 {
-				return
+				continue
 			}
 
 			tmplData := TemplateData{
